@@ -101,45 +101,80 @@ def calls_constraint(term, which):
     return False
 
 
-def clause_a(repo, chk):
-    chk.rule("A-constr", "each FCN/CombineFCN entry point adds the Gaussian-constraint term of every order it returns (value, gradient, Hessian, Hessian.p)")
+def entry_points_by_interpretation(repo):
+    """every public entry point of FCN / CombineFCN interpreted on a two-parameter component model: the likelihood-level
+    methods get_* return symbols, the GaussianConstr methods return symbols; the entry point must return, component
+    by component, likelihood part + constraint part (value, gradient, Hessian, Hessian.p).  Robust to temporaries,
+    accumulation into the same name, keyword arguments ...   -> {(class, method): (ok, [got], [want])}"""
+    import numpy as np
+    import sympy as sp
+
+    from ..sym import SelfObj, Translator, Unmodelled, equal
+
+    M = MODEL + "::"
+    gc = repo.cls(M + "GaussianConstr")
+    N, Ct = sp.symbols("N Ct")
+    G = np.array(sp.symbols("G1 G2"), dtype=object)
+    Cg = np.array(sp.symbols("Cg1 Cg2"), dtype=object)
+    H = np.array(sp.symbols("H11 H12 H21 H22"), dtype=object).reshape(2, 2)
+    Ch = np.array(sp.symbols("Ch11 Ch12 Ch21 Ch22"), dtype=object).reshape(2, 2)
+    HP = np.array(sp.symbols("HP1 HP2"), dtype=object)
+    P = np.array(sp.symbols("p1 p2"), dtype=object)
+    out = {}
     for cname in ("FCN", "CombineFCN"):
-        cls = repo.cls("%s::%s" % (MODEL, cname))
-        for mname, req in REQ.items():
+        cls = repo.cls(M + cname)
+        hooks = {"allow_attr_store": True, "stack_as_array": True,
+                 gc.methods["get_constrain_term"].key: lambda tr, a, k, n: Ct,
+                 gc.methods["get_constrain_grad"].key: lambda tr, a, k, n: Cg,
+                 gc.methods["get_constrain_hessian"].key: lambda tr, a, k, n: Ch}
+        lik = {"get_nll": N, "get_grad": G, "get_nll_grad": (N, G), "get_nll_grad_hessian": (N, G, H), "get_grad_hessp": (G, HP)}
+        for mn, val in lik.items():
+            if mn not in cls.methods:
+                raise AnalysisError("anchor vanished: %s.%s" % (cname, mn))
+            hooks[cls.methods[mn].key] = (lambda v: (lambda tr, a, k, n: v))(val)
+        want = {"__call__": [N + Ct], "grad": [G + Cg], "nll_grad": [N + Ct, G + Cg], "nll_grad_hessian": [N + Ct, G + Cg, H + Ch], "grad_hessp": [G + Cg, HP + np.dot(Ch, P)]}
+        for mname in REQ:
             fn = cls.methods.get(mname)
             if fn is None:
                 raise AnalysisError("anchor vanished: %s.%s" % (cname, mname))
-            defs = single_defs(fn.node)
-            rets = [n for n in walk_local(fn.node) if isinstance(n, ast.Return) and n.value is not None]
-            if not rets:
-                raise AnalysisError("%s.%s has no return" % (cname, mname))
-            pname = None
-            if any("@p" in r for r in req):
-                params = fn.params[1:]
-                if len(params) < 2:
-                    raise AnalysisError("%s.%s: cannot find the direction parameter" % (cname, mname))
-                pname = params[1]
-            for r in rets:
-                comps = list(r.value.elts) if isinstance(r.value, ast.Tuple) else [r.value]
-                if len(comps) != len(req):
-                    chk.violation("A-constr", fn.key, "arity", "returns %d components, %d expected" % (len(comps), len(req)), file=MODEL, line=r.lineno)
+            tr = Translator(repo, hooks=hooks, max_depth=3)
+            so = SelfObj(cls, {"gauss_constr": SelfObj(gc, {}), "batch": sp.Symbol("batch"), "fcns": []})
+            args = [sp.Symbol("x")] + ([P] if mname == "grad_hessp" else [])
+            try:
+                got = tr.call_fn(fn, args, self_obj=so)
+            except Unmodelled as e:
+                raise AnalysisError("%s.%s is not interpretable on the component model: %s" % (cname, mname, e))
+            comps = list(got) if isinstance(got, (tuple, list)) else [got]
+            ws = want[mname]
+            oks = []
+            for i, w in enumerate(ws):
+                if i >= len(comps):
+                    oks.append(False)
                     continue
-                for i, (comp, need) in enumerate(zip(comps, req)):
-                    ex = expand(comp, defs)
-                    terms = add_terms(ex)
-                    which = need[0]
-                    hit = [t for t in terms if calls_constraint(t, which)]
-                    ok = bool(hit)
-                    if ok and "@p" in need:
-                        ok = any(any(isinstance(x, ast.Name) and x.id == pname for x in ast.walk(t)) for t in hit)
-                    chk.instance("A-constr", "%s.%s component %d needs %s%s: %s" % (cname, mname, i, CONSTR[which], " . " + pname if "@p" in need else "", "present" if ok else "MISSING"))
-                    if not ok:
-                        chk.violation(
-                            "A-constr", fn.key, "component%d:%s" % (i, which),
-                            "returned component %d (`%s`) does not add %s%s: with a Gaussian constraint configured the returned %s is not the derivative of the returned NLL"
-                            % (i, norm_text(comp), CONSTR[which] + "()", " applied to " + pname if "@p" in need else "", {"term": "value", "grad": "gradient", "hessian": "Hessian (-vector product)"}[which]),
-                            file=MODEL, line=r.lineno,
-                        )
+                a, b = np.asarray(comps[i], dtype=object), np.asarray(w, dtype=object)
+                oks.append(a.shape == b.shape and all(equal(sp.sympify(x), sp.sympify(y))[0] is True for x, y in zip(a.reshape(-1), b.reshape(-1))))
+            out[(cname, mname)] = (len(comps) == len(ws), oks, comps, ws, fn)
+    return out
+
+
+def clause_a(repo, chk):
+    chk.rule("A-constr", "each FCN/CombineFCN entry point, interpreted on a two-parameter component model, returns likelihood part + Gaussian-constraint part for every order it returns (value, gradient, Hessian, Hessian.p)")
+    res = entry_points_by_interpretation(repo)
+    names = {0: {"__call__": "term", "grad": "grad", "nll_grad": "term", "nll_grad_hessian": "term", "grad_hessp": "grad"}}
+    kinds = {"__call__": ["term"], "grad": ["grad"], "nll_grad": ["term", "grad"], "nll_grad_hessian": ["term", "grad", "hessian"], "grad_hessp": ["grad", "hessian"]}
+    for (cname, mname), (arity_ok, oks, comps, ws, fn) in sorted(res.items()):
+        if not arity_ok:
+            chk.violation("A-constr", fn.key, "arity", "returns %d components, %d expected" % (len(comps), len(ws)), file=MODEL, line=fn.lineno)
+        for i, ok in enumerate(oks):
+            which = kinds[mname][i]
+            chk.instance("A-constr", "%s.%s component %d == likelihood part + %s%s: %s" % (cname, mname, i, CONSTR[which], " . p" if (mname == "grad_hessp" and i == 1) else "", "present" if ok else "MISSING"))
+            if not ok:
+                chk.violation(
+                    "A-constr", fn.key, "component%d:%s" % (i, which),
+                    "returned component %d is `%s`, expected `%s`: with a Gaussian constraint configured the returned %s is not the derivative of the returned NLL"
+                    % (i, comps[i] if i < len(comps) else None, ws[i], {"term": "value", "grad": "gradient", "hessian": "Hessian (-vector product)"}[which]),
+                    file=MODEL, line=fn.lineno,
+                )
     chk.require_count("A-constr", 18)
 
 
@@ -177,9 +212,13 @@ def clause_b(repo, chk):
         loop, iff = loop_facts(fn.node)
         if loop is None:
             raise AnalysisError("%s: loop over trainable_vars with bnd_dic lookup not found" % fn.key)
+        # polarity of the test: `name in self.bnd_dic` (bounded branch first) or `name not in ...` (defaults first)
+        t_ = iff.test
+        negated = (isinstance(t_, ast.Compare) and isinstance(t_.ops[0], ast.NotIn)) or (isinstance(t_, ast.UnaryOp) and isinstance(t_.op, ast.Not))
+        bounded_body, default_body = (iff.orelse, iff.body) if negated else (iff.body, iff.orelse)
         # which get_* is called in the bounded branch, with which argument, stored where
         got = {}
-        for st in iff.body:
+        for st in bounded_body:
             for x in ast.walk(st):
                 if isinstance(x, ast.Call) and isinstance(x.func, ast.Attribute) and x.func.attr.startswith("get_"):
                     arg = norm_text(x.args[0]) if x.args else None
@@ -193,7 +232,7 @@ def clause_b(repo, chk):
         same_arg = len(args) == 1
         # the store of y uses the same index as the x it reads
         y_ok = True
-        for st in iff.body:
+        for st in bounded_body:
             if isinstance(st, ast.Assign) and isinstance(st.targets[0], ast.Subscript) and "get_x2y" in norm_text(st.value):
                 tgt_idx = norm_text(st.targets[0].slice)
                 call = [x for x in ast.walk(st.value) if isinstance(x, ast.Call) and isinstance(x.func, ast.Attribute) and x.func.attr == "get_x2y"][0]
@@ -202,12 +241,12 @@ def clause_b(repo, chk):
                     y_ok = False
         # defaults in the else branch
         dflt = {}
-        for st in iff.orelse:
+        for st in default_body:
             if isinstance(st, ast.Expr) and isinstance(st.value, ast.Call) and isinstance(st.value.func, ast.Attribute) and st.value.func.attr == "append":
                 lst = norm_text(st.value.func.value)
                 dflt[lst] = st.value.args[0]
         lists = {}
-        for st in iff.body:
+        for st in bounded_body:
             if isinstance(st, ast.Expr) and isinstance(st.value, ast.Call) and isinstance(st.value.func, ast.Attribute) and st.value.func.attr == "append":
                 lst = norm_text(st.value.func.value)
                 inner_call = [x for x in ast.walk(st.value.args[0]) if isinstance(x, ast.Call) and isinstance(x.func, ast.Attribute) and x.func.attr in DEFAULTS]
@@ -253,7 +292,11 @@ def clause_b(repo, chk):
     for n in walk_local(gf.node):
         if isinstance(n, ast.Assign) and isinstance(n.targets[0], ast.Name) and isinstance(n.value, ast.Call):
             fnm = norm_text(n.value.func).split(".")[-1]
-            dmap.setdefault(n.targets[0].id, []).append((fnm, [norm_text(a) for a in n.value.args]))
+            args_ = [norm_text(a) for a in n.value.args]
+            # method style <expr>.diff(x) is function style diff(<expr>, x)
+            if isinstance(n.value.func, ast.Attribute) and fnm in ("diff",) and not (isinstance(n.value.func.value, ast.Name) and n.value.func.value.id in gf.mod.imports):
+                args_ = [norm_text(n.value.func.value)] + args_
+            dmap.setdefault(n.targets[0].id, []).append((fnm, args_))
     def made_by(name, fnm, arg0):
         return any(k == fnm and a and a[0] == arg0 for k, a in dmap.get(name, []))
     ok_slots = (
@@ -397,8 +440,13 @@ def clause_c(repo, chk):
         found.discard(key)
         cfg = CFG(fn.node)
 
+        # plain local aliases of the buffer (hess_p = self.<attr>) stand for the buffer; the aliasing statement is no use
+        alias_stmts = [x for x in walk_local(fn.node) if isinstance(x, ast.Assign) and len(x.targets) == 1 and isinstance(x.targets[0], ast.Name)
+                       and isinstance(x.value, ast.Attribute) and x.value.attr == attr and isinstance(x.value.value, ast.Name) and x.value.value.id == "self"]
+        aliases = {x.targets[0].id for x in alias_stmts}
+
         def mentions(node_ast, name_attr=attr, name_par=par):
-            has_attr = any(isinstance(x, ast.Attribute) and x.attr == name_attr for x in ast.walk(node_ast))
+            has_attr = any((isinstance(x, ast.Attribute) and x.attr == name_attr) or (isinstance(x, ast.Name) and x.id in aliases) for x in ast.walk(node_ast))
             has_par = any(isinstance(x, ast.Name) and x.id == name_par for x in ast.walk(node_ast))
             return has_attr, has_par
 
@@ -435,6 +483,8 @@ def clause_c(repo, chk):
                 continue
             has_attr, has_par = mentions(sc)
             is_guard = node.kind == "test" and norm_text(sc).startswith("not hasattr(self,")
+            if any(sc is a_ for a_ in alias_stmts):
+                continue
             if has_attr and not has_par and not is_guard:
                 n_use += 1
                 if "stale" in at[node.id]:
@@ -497,8 +547,8 @@ def clause_d(repo, chk):
     outer = [r.value for r in walk_local(cl.node) if isinstance(r, ast.Return)]
     if not logs or not outer or not (isinstance(outer[0], ast.Call) and norm_text(outer[0].func) == "tf.where"):
         raise AnalysisError("clip_log: tf.math.log / outer tf.where not found")
-    cond_outer = norm_text(outer[0].args[0])
     defs = single_defs(cl.node)
+    cond_outer = norm_text(expand(outer[0].args[0], defs))  # a shared condition variable is looked through
     ok = True
     for lg in logs:
         arg = lg.args[0]
